@@ -3070,14 +3070,19 @@ MODULES = {
                      + [("EdgeIterator", "Iterator", "next"), ("FinalStateIterator", "Iterator", "next")],
     },
     "RegexNodeGen": {
-        "files": ["regular_expressions.rs", "character_sets.rs", "loop_ranges.rs", "smt_strings.rs"],
-        "types": ["CharSet", "CharPartition", "LoopRange", "RE", "BaseRegLan"],
+        "files": ["regular_expressions.rs", "character_sets.rs", "loop_ranges.rs", "smt_strings.rs", "errors.rs"],
+        "types": ["CharSet", "CoverResult", "ClassId", "Error", "CharPartition", "LoopRange", "RE", "BaseRegLan"],
         "mutual": [["RE", "BaseRegLan"]],
         "consts": ["MAX_CHAR"],
         "functions": [("CharSet", None, f) for f in ("is_alphabet", "covers")]
                      + [("LoopRange", None, f) for f in ("start", "is_all")]
-                     + [("CharPartition", None, f) for f in ("len", "new", "from_set", "push", "get")]
+                     + [("CharSet", None, f) for f in ("contains", "is_before")]
+                     + [("CharPartition", None, f) for f in ("len", "new", "from_set", "push", "get", "start", "end", "pick",
+                                                             "empty_complement", "pick_complement", "valid_class_id",
+                                                             "pick_in_class", "class_of_char", "interval_cover", "class_of_set")]
                      + [(None, None, "merge_partitions")]
+                     + [("RE", None, f) for f in ("empty_complement", "num_deriv_classes", "valid_class_id", "is_empty",
+                                                  "pick_class_rep", "class_of_char", "class_of_set")]
                      + [("BaseRegLan", None, f) for f in ("is_nullable", "concat_or_atomic", "is_all_chars", "is_full",
                                                           "is_range", "match_char_set", "deriv_class")],
         # is_atomic / is_singleton / is_simple_pattern feed only Display and dead code: no model counterpart, not translated
